@@ -50,6 +50,26 @@ inline void quad(const double * in, double * out)
   *out++ = v; vh::put(J, out); vh::put(H, out);
   vh::put(x, out); *out++ = y;
 }
+// quadratic VECTOR-valued family (ny = 2 != nx = 3): f_m = 1/2 w^T Q_m w + q_m^T w ; in = [Q0(9) Q1(9) q0(3) q1(3) | x(2) y]
+// out = [value(2) | J (2x3) | H (3 x 6, blocks per output) | x y after]
+inline void quad2(const double * in, double * out)
+{
+  Eigen::Matrix3d Q0, Q1;
+  for (int i = 0; i < 3; ++i) for (int j = 0; j < 3; ++j) { Q0(i, j) = in[i * 3 + j]; Q1(i, j) = in[9 + i * 3 + j]; }
+  Eigen::Vector3d q0(in[18], in[19], in[20]), q1(in[21], in[22], in[23]);
+  Eigen::Vector2d x(in[24], in[25]);
+  double y = in[26];
+  auto f = [&](const Eigen::Vector2d & xx, const double & yy) -> Eigen::Vector2d {
+    Eigen::Vector3d w(xx(0), xx(1), yy);
+    return Eigen::Vector2d(0.5 * w.dot(Q0 * w) + q0.dot(w), 0.5 * w.dot(Q1 * w) + q1.dot(w));
+  };
+  auto [v, J, H] = smooth::diff::dr<2, Type::Numerical>(f, smooth::wrt(x, y));
+  vh::put(v, out); vh::put(J, out);
+  // fixed 3 x 6 window of the Hessian, whatever size the library allocated (a wrong size reads out of bounds: memory finding)
+  for (int i = 0; i < 3; ++i) for (int j = 0; j < 6; ++j) *out++ = H(i, j);
+  *out++ = static_cast<double>(H.rows()); *out++ = static_cast<double>(H.cols());
+  vh::put(x, out); *out++ = y;
+}
 // K = 0 and index subset: out = [value(2) | J of subset <0,2> (2 x 4) ]
 inline void subset(const double * in, double * out)
 {
@@ -96,6 +116,7 @@ inline void action(const double * in, double * out)
 extern "C" void diff_lin(const double * i, double * o) { vdiff::lin<false>(i, o); }
 extern "C" void diff_lin_const(const double * i, double * o) { vdiff::lin<true>(i, o); }
 extern "C" void diff_quad(const double * i, double * o) { vdiff::quad(i, o); }
+extern "C" void diff_quad2(const double * i, double * o) { vdiff::quad2(i, o); }
 extern "C" void diff_subset(const double * i, double * o) { vdiff::subset(i, o); }
 extern "C" void diff_analytic(const double * i, double * o) { vdiff::analytic(i, o); }
 extern "C" void diff_action(const double * i, double * o) { vdiff::action(i, o); }
